@@ -2,6 +2,7 @@ from __future__ import annotations
 
 import logging
 import threading
+import weakref
 from typing import TYPE_CHECKING, Any, overload
 
 import claripy
@@ -17,6 +18,9 @@ if TYPE_CHECKING:
     from claripy.ast import BV, FP, Bool
 
 log = logging.getLogger(__name__)
+
+# the frontend that last loaded its constraints into the per-thread Z3 solver shared in reuse_z3_solver mode
+_reused_solver_user = threading.local()
 
 
 class FullFrontend(ConstrainedFrontend):
@@ -74,13 +78,16 @@ class FullFrontend(ConstrainedFrontend):
     #
 
     def _get_solver(self):
+        fresh = False
         if getattr(self._tls, "solver", None) is None:
             self._tls.solver = self._solver_backend.solver(timeout=self.timeout, max_memory=self.max_memory)
             self._add_constraints()
+            fresh = True
         elif self._finalized and len(self._to_add) > 0:
             if not hasattr(self._solver_backend, "clone_solver") or self._solver_backend.reuse_z3_solver:
                 # this function may return a cached solver
                 self._tls.solver = self._solver_backend.solver(timeout=self.timeout, max_memory=self.max_memory)
+                fresh = True
             else:
                 self._tls.solver = self._solver_backend.clone_solver(self._tls.solver)
             self._add_constraints()
@@ -88,11 +95,15 @@ class FullFrontend(ConstrainedFrontend):
         if len(self._to_add) > 0:
             self._add_constraints()
 
-        solver = self._tls.solver
         if self._solver_backend.reuse_z3_solver:
-            # we must re-add all constraints
-            self._add_constraints()
-        return solver
+            # The Z3 solver is shared by all frontends of this thread. If another frontend used it since we did, it
+            # holds that frontend's constraints: reset it and re-add all of ours.
+            last_user = getattr(_reused_solver_user, "frontend", None)
+            if not fresh and (last_user is None or last_user() is not self):
+                self._tls.solver = self._solver_backend.solver(timeout=self.timeout, max_memory=self.max_memory)
+                self._add_constraints()
+            _reused_solver_user.frontend = weakref.ref(self)
+        return self._tls.solver
 
     def _add_constraints(self):
         self._solver_backend.add(self._tls.solver, self.constraints, track=self._track)
